@@ -28,8 +28,8 @@ TRUSTED_BASE = [
 ]
 ASSUMPTIONS = [
 	'the iteration order of the Python set of struct names is passed to the model as a list (list(set) in the same process)',
-	'order independence is a theorem only when no member type of a marked descendant has itself a factory type (NoDerivedMemberTypes); '
-	'both shipped sets satisfy it (checked every run)',
+	'the model mirrors _propagate_unaligned with fixes/c18-propagate-unaligned.diff applied (member types are marked but not counted as '
+	'visited); order independence and the lower bound are then theorems for all schemas',
 ]
 
 SIG_ORDER = '_propagate_unaligned result depends on the iteration order of struct_names (member type of a marked descendant is itself a descendant)'
@@ -411,8 +411,6 @@ class Checker:
 			if model_answer['exts'] != json.loads(json.dumps(extensions)):
 				name = next(key for key in extensions if model_answer['exts'].get(key) != json.loads(json.dumps(extensions[key])))
 				ctx.fail('corr', f'extensions of {name}: model {str(model_answer["exts"].get(name))[:300]}, implementation {str(extensions[name])[:300]}', case)
-			if isinstance(model_answer['unaligned'], dict) or sorted(model_answer['unaligned']) != marks:
-				ctx.fail('corr', f'requires_unaligned: model {model_answer["unaligned"]}, implementation {marks}', case)
 
 		# clauses on the objects
 		from catparser.ast import Array  # pylint: disable=import-outside-toplevel
@@ -456,11 +454,14 @@ class Checker:
 		if not set(marks) <= upper:
 			self.fail_property(f'requires_unaligned marks outside the closure of the rules: {sorted(set(marks) - upper)}', case)
 
-		# order independence on the real code (and the model)
+		# order independence on the real code and on the model; the marks have to be the closure whatever the order
 		side_condition = no_derived_member_types(models)
 		ctx.count('order:side-condition-' + str(side_condition))
+		implementation_results = {tuple(marks): 'set-order'}
+		model_results = {}
+		if model_answer is not None and not isinstance(model_answer['unaligned'], dict):
+			model_results[tuple(sorted(model_answer['unaligned']))] = 'set-order'
 		if seeds:
-			results = {}
 			for attempt in range(ctx.scale(3, 8)):
 				shuffled_models = cats_json.schema_from_wire(wire)
 				permutation_seed = ctx.rng.randrange(1 << 30)
@@ -475,20 +476,33 @@ class Checker:
 					random.Random(permutation_seed).shuffle(names)
 					return names
 				if run_extend(shuffled_models, shuffled) is None:
-					results[tuple(unaligned_names(shuffled_models))] = attempt
+					implementation_results.setdefault(tuple(unaligned_names(shuffled_models)), attempt)
 				if ctx.driver is not None:
 					names = shuffled([str(name) for name in order])
 					answer = cats_common.ask_json(ctx.driver, 'extend ' + (','.join(cats_json.enc_str(name)[1:] for name in names) or '-') + ' ' + wire)
 					if not isinstance(answer['unaligned'], dict):
-						results.setdefault(tuple(sorted(answer['unaligned'])), f'model:{attempt}')
-						if run_extend(cats_json.schema_from_wire(wire), shuffled) is None:
-							pass
-			ctx.case((text or label, 'order'), {'label': label, 'distinct-results': len(results)})
-			if 1 < len(results):
-				signature = SIG_ORDER if not side_condition else None
-				self.fail_property(f'requires_unaligned depends on the iteration order of struct_names: {sorted(results)}'[:600], case, signature)
-			else:
-				ctx.count('order:independent')
+						model_results.setdefault(tuple(sorted(answer['unaligned'])), attempt)
+			ctx.case((text or label, 'order'), {'label': label, 'distinct-results': len(implementation_results)})
+		closure = tuple(sorted(upper))
+		defect = False
+		if 1 < len(implementation_results):
+			defect = True
+			self.fail_property(
+				f'requires_unaligned depends on the iteration order of struct_names: {sorted(implementation_results)}'[:600], case,
+				SIG_ORDER if not side_condition else None)
+		elif not side_condition and closure not in implementation_results:
+			# the same defect seen from one order only: a member type that is itself a descendant was never visited
+			defect = True
+			self.fail_property(
+				f'requires_unaligned {sorted(implementation_results)} is not the closure {list(closure)} of the rules (and another iteration order '
+				'gives a different answer)'[:600], case, SIG_ORDER)
+		else:
+			ctx.count('order:independent')
+		if model_results:
+			if list(model_results) != [closure]:
+				ctx.fail('corr', f'requires_unaligned: the model gives {sorted(model_results)}, the closure of the rules is {list(closure)}', case)
+			elif not defect and tuple(marks) not in model_results:
+				ctx.fail('corr', f'requires_unaligned: model {sorted(model_results)}, implementation {marks}', case)
 
 
 def run(ctx):
@@ -525,10 +539,10 @@ MANIFEST = {
 	'level_text': (
 		'Lean theorems over the model of generators/util.py for all expanded schemas: factory_map_children, factory_map_discriminators, '
 		'no_descendants_no_entry, bound_field_of_count/size/sizeof, size_fields_inverse, abstract_contents_flag, unaligned_upper, '
-		'unaligned_empty, and order independence of the unaligned marks under the stated side condition; tied to the code by a differential run '
+		'unaligned_lower, unaligned_empty, and order independence of the unaligned marks (marks = closure of the rules, any iteration order); tied to the code by a differential run '
 		'on really expanded random schemas and both shipped sets.'),
 	'level_note': (
 		'Trusted: Lean kernel + {propext, Classical.choice, Quot.sound}; hand-written model tied by differential execution only; the Python set '
-		'iteration order is an explicit parameter. The unchanged tree is order dependent outside the side condition (known finding).'),
+		'iteration order is an explicit parameter. A tree without the repair of _propagate_unaligned is order dependent (the check reports it).'),
 	'technique': 'Lean 4 theorems over a hand-written model + differential correspondence with the Python implementation',
 }
